@@ -473,6 +473,35 @@ def rule_R14(text, cfg, counts):
          drop(x) / std::mem::drop(x) / core::mem::drop(x) => F(x, A)
        a named binding (`let _guard = E;`) lives to the end of its scope and is left alone."""
     fn, args = cfg["fn"], cfg.get("args", "")
+    # named bindings of the tracked type (`track` = regex of its constructor calls): the value lives to the end of its scope, so
+    # it is dropped at every later `return e;` whose expression does not hand it on
+    if cfg.get("track"):
+        m_ = mask(text)
+        for mb in list(re.finditer(r"\blet\s+(?:mut\s+)?(\w+)\s*=", m_)):
+            name = mb.group(1)
+            if name == "_":
+                continue
+            semi = find_at_depth0(m_, mb.end(), len(m_), [";"])
+            if semi < 0 or not re.search(cfg["track"], text[mb.end():semi]):
+                continue
+            out, pos = [], semi + 1
+            head = text[:pos]
+            rest_t = text[pos:]
+            rest_m = mask(rest_t)
+            cur = 0
+            for mr in re.finditer(r"\breturn\b", rest_m):
+                e = find_at_depth0(rest_m, mr.end(), len(rest_m), [";"])
+                if e < 0:
+                    continue
+                if re.search(r"\b%s\b" % re.escape(name), rest_t[mr.end():e]):
+                    continue
+                out.append(rest_t[cur:mr.start()])
+                out.append("{ %s(%s%s); %s; }" % (fn, name, (", " + args) if args else "", rest_t[mr.start():e]))
+                cur = e + 1
+                counts["R14"] = counts.get("R14", 0) + 1
+            out.append(rest_t[cur:])
+            text = head + "".join(out)
+            break   # one tracked binding per block
     k = 0
     while True:
         m_ = mask(text)
